@@ -227,7 +227,7 @@ func GenConfig(t *rapid.T, o GenOpts) *Config {
 				if o.MultiAs {
 					na = rapid.IntRange(1, 2).Draw(t, "nas")
 				}
-				ifs := rapid.Permutation([]int{TI0, TI1, TI2}).Draw(t, "aliases")[:na]
+				ifs := rapid.Permutation([]int{TI0, TI1, TI2, TI3}).Draw(t, "aliases")[:na]
 				var key, group string
 				if o.Groups && rapid.IntRange(0, 3).Draw(t, "asgrp") == 0 {
 					group = rapid.SampledFrom(groupPool).Draw(t, "asgroup")
